@@ -222,7 +222,9 @@ void harness_header_eof(void)
 	enum bs_read_callback_return r =
 		phase == 0 ? ws_get_header(&WS, 0, 0) : phase == 1 ? ws_get_first_length(&WS, 0, 0) : phase == 2 ? ws_get_length16(&WS, 0, 0) :
 		phase == 3 ? ws_get_length64(&WS, 0, 0) : phase == 4 ? ws_get_mask(&WS, 0, 0) : ws_get_payload(&WS, 0, 0);
-	CHECK(r == BS_CLOSED && conn_freed && errors_reported == 1 && last_close_code() == 1001 && nrd == 0, "C05.eof_in_any_frame_phase_closes_with_1001");
+	/* (today a close frame 1001 is written first; whether a frame is still written to a stream that ended is not the
+	   property's subject - if one is written it is a single close frame with a valid code) */
+	CHECK(r == BS_CLOSED && conn_freed && errors_reported == 1 && nrd == 0 && nwf <= 1 && (nwf == 0 || last_close_code() >= 1000), "C05.eof_in_any_frame_phase_releases_the_connection_once");
 	WITNESS_END();
 }
 /* C13 / C05 - one header line of the HTTP phase handed to websocket_read_header_line: a line the parser rejects is
